@@ -213,6 +213,33 @@ Theorem C12_bsearch_dir_ignore_refuted :
 Proof. exact bsearch_dir_ignore_refuted. Qed.
 Print Assumptions C12_bsearch_dir_ignore_refuted.
 
+(** A file ignore entry (one that does not end in "/") ignores exactly what
+    [path.Match] matches with it - every meta character of [path.Match]
+    included, the backslash too. *)
+Theorem C12_file_ignore_is_path_match : forall p r i name,
+  ignored p (only_ignore r i) name =
+  if ends_with_slash i then under_ignored_dir name (make_rel_path p i)
+  else matches (make_rel_path p i) name.
+Proof. exact ignored_only. Qed.
+Print Assumptions C12_file_ignore_is_path_match.
+
+(** Looking entries without '*', '?', '[' up as literal names instead: the
+    escaped literals "a\.txt", "a\ b" no longer ignore a.txt, "a b", and the
+    file literally called a\.txt is ignored although the pattern does not match
+    it. *)
+Theorem C12_escaped_ignore_is_a_pattern_refuted :
+  ignored [] (ig_rule [bs "a\.txt"]) (bs "a.txt") = true /\
+  ignored_exact_lookup [] (ig_rule [bs "a\.txt"]) (bs "a.txt") = false /\
+  ignored [] (ig_rule [bs "a\ b"]) (bs "a b") = true /\
+  ignored_exact_lookup [] (ig_rule [bs "a\ b"]) (bs "a b") = false /\
+  ignored [] (ig_rule [bs "\[x\]"]) (bs "[x]") = true /\
+  ignored [] (ig_rule [bs "a.txt\"]) (bs "a.txt") = false /\
+  ignored [] (ig_rule [bs "a\.txt"]) (bs "a\.txt") = false /\
+  ignored_exact_lookup [] (ig_rule [bs "a\.txt"]) (bs "a\.txt") = true /\
+  ignored (bs "pkg") (ig_rule [bs "d/a\.txt"]) (bs "pkg/d/a.txt") = true.
+Proof. exact escaped_ignore_is_a_pattern_refuted. Qed.
+Print Assumptions C12_escaped_ignore_is_a_pattern_refuted.
+
 (** The recursive listing, entry by entry (Caco/FileSetWalk.v): listed are
     the entries that are no real directories, lie beneath the root, are reached
     through real directories none of which is named like a skipped directory,
